@@ -11,23 +11,16 @@ Proof. unfold count_nl, count_char. cbn. destruct (N.eqb c 10); reflexivity. Qed
 
 Lemma splitlines_aux_len l : forall cur,
   (forall c, In c l -> is_lb c = true -> c = 10%N) ->
-  List.length (splitlines_aux l cur) =
+  List.length (splitlines_aux l cur false) =
   count_nl l + (if ends_open l (negb (match cur with [] => true | _ => false end)) then 1 else 0).
 Proof.
   induction l as [|c r IH]; intros cur Hlb.
   - cbn. destruct cur; reflexivity.
-  - cbn [splitlines_aux]. rewrite count_nl_cons. cbn [ends_open].
+  - cbn [splitlines_aux andb]. rewrite count_nl_cons. cbn [ends_open].
     destruct (is_lb c) eqn:E.
     + assert (c = 10%N) as -> by (apply Hlb; [left; reflexivity|exact E]).
-      replace (negb (N.eqb 10 10)) with false by reflexivity. cbn [length].
-      assert (forall X Y : list pystr, List.length (match r with
-                | c2 :: r' => if ((10 =? 13)%N && (c2 =? 10)%N)%bool then X else Y
-                | [] => Y end) = List.length Y) as Hm by (intros; destruct r; reflexivity).
-      destruct r as [|c2 r'].
-      * cbn. reflexivity.
-      * replace ((10 =? 13)%N && (c2 =? 10)%N)%bool with false by reflexivity.
-        cbn [List.length]. rewrite IH by (intros; apply Hlb; [right|]; assumption).
-        replace (10 =? 10)%N with true by reflexivity. cbn [negb]. lia.
+      replace (10 =? 13)%N with false by reflexivity. replace (10 =? 10)%N with true by reflexivity.
+      cbn [List.length negb]. rewrite IH by (intros; apply Hlb; [right|]; assumption). cbn. lia.
     + assert (N.eqb c 10 = false) as Hc.
       { destruct (N.eqb c 10) eqn:X; [|reflexivity]. apply N.eqb_eq in X. subst. discriminate E. }
       rewrite Hc. rewrite IH by (intros; apply Hlb; [right|]; assumption). cbn. reflexivity.
